@@ -2095,56 +2095,49 @@ def _cell_classify(case):
 def shard(ctx):
     depth = ctx.scale(3, 4)
     max_ops = ctx.scale(30, 60)
-    ctx.sweep(
-        "ops",
-        slice_sweep_cases(ctx.scale(4, 6)),
-        nontrivial=_sweep_nontrivial,
-        classify=_sweep_classify,
-        exhaustive_name="every slice spelling x focus x list-like container with <= %d children" % ctx.scale(4, 6),
-    )
-    if ctx.failure is not None:
-        return
-    ctx.sweep(
-        "ops",
-        entry_sweep_cases(ctx.scale(2, 3), ctx.scale(("pile", "cols", "lb-s"), ("pile", "cols", "lb-s", "lb-f"))),
-        nontrivial=_entry_nontrivial,
-        classify=_entry_classify,
-        exhaustive_name="every arrow key x two-level nest x inner container of <= %d leaves over all leaf variants" % ctx.scale(2, 3),
-    )
-    if ctx.failure is not None:
-        return
-    ctx.sweep(
-        "ops",
-        overfull_sweep_cases(ctx.scale(5, 6)),
-        nontrivial=_overfull_nontrivial,
-        classify=_overfull_classify,
-        exhaustive_name="every pair of focus changes x list-like container too small for its <= %d children" % ctx.scale(5, 6),
-    )
-    if ctx.failure is not None:
-        return
-    ctx.sweep(
-        "ops",
-        binding_sweep_cases(),
-        nontrivial=lambda case: True,  # every case has two command maps and an edit that changes one of them
-        classify=_binding_classify,
-        exhaustive_name="every origin and user of a second command map x every arrow binding edit x edited map x order x restore_defaults",
-    )
-    if ctx.failure is not None:
-        return
     cols, rows = ctx.scale((9, 6), (11, 7))
     sizes = ctx.scale(
         ((["g", 4], ["g", 2]), (["r", 30], ["r", 30])),
         ((["g", 4], ["g", 2]), (["r", 30], ["r", 30]), (["g", 2], ["r", 10]), (["r", 60], ["g", 0])),
     )
-    ctx.sweep(
-        "ops",
-        cell_sweep_cases(cols, rows, sizes),
-        nontrivial=lambda case: True,  # every tree has two container levels and the press is followed by a key
-        classify=_cell_classify,
-        exhaustive_name="button-1 press at every cell of a %dx%d canvas x every two-level nest of the container kinds" % (cols, rows),
-    )
-    if ctx.failure is not None:
-        return
+    # the deterministic sweeps, smallest first (so that a short budget on a busy machine still covers the small
+    # domains completely), then the random histories
+    sweeps = [
+        (
+            binding_sweep_cases(),
+            lambda case: True,  # every case has two command maps and an edit that changes one of them
+            _binding_classify,
+            "every origin and user of a second command map x every arrow binding edit x edited map x order x restore_defaults",
+        ),
+        (
+            overfull_sweep_cases(ctx.scale(5, 6)),
+            _overfull_nontrivial,
+            _overfull_classify,
+            "every pair of focus changes x list-like container too small for its <= %d children" % ctx.scale(5, 6),
+        ),
+        (
+            cell_sweep_cases(cols, rows, sizes),
+            lambda case: True,  # every tree has two container levels and the press is followed by a key
+            _cell_classify,
+            "button-1 press at every cell of a %dx%d canvas x every two-level nest of the container kinds" % (cols, rows),
+        ),
+        (
+            entry_sweep_cases(ctx.scale(2, 3), ctx.scale(("pile", "cols", "lb-s"), ("pile", "cols", "lb-s", "lb-f"))),
+            _entry_nontrivial,
+            _entry_classify,
+            "every arrow key x two-level nest x inner container of <= %d leaves over all leaf variants" % ctx.scale(2, 3),
+        ),
+        (
+            slice_sweep_cases(ctx.scale(4, 6)),
+            _sweep_nontrivial,
+            _sweep_classify,
+            "every slice spelling x focus x list-like container with <= %d children" % ctx.scale(4, 6),
+        ),
+    ]
+    for cases, nt, cl, name in sweeps:
+        ctx.sweep("ops", cases, nontrivial=nt, classify=cl, exhaustive_name=name)
+        if ctx.failure is not None:
+            return
     ctx.given("ops", case_strategy(depth, max_ops), ctx.scale(400, 8000), nontrivial=nontrivial, classify=classify)
     for label, n in sorted(STATS.items()):
         ctx.count("run:" + label, n)
